@@ -671,6 +671,15 @@ class Run(object):
                     if tk == "yield":
                         if term.get("reuse"):
                             obj, res, run.last_struct[t] = yielded[term["reuse"]]      # the very same object again
+                            if term["s"]["g"] == "Lst":
+                                # ... after appending new futures to it (the object is a list)
+                                run.leafobjs = []
+                                keep_ls = run.last_struct[t]
+                                run.last_struct[t] = []
+                                more, mres = run.build(t, k, term["s"], [0])
+                                obj.extend(more)
+                                res = V("Lst", 0, res["xs"] + mres["xs"])
+                                run.last_struct[t] = keep_ls + run.last_struct[t]
                         else:
                             run.last_struct[t] = []
                             run.leafobjs = []
